@@ -399,7 +399,7 @@ def header_writer(ctx) -> Dict[bytes, Tuple[set, ast.AST]]:
             while isinstance(l, ast.BinOp) and isinstance(l.op, ast.Add):
                 l = l.left
             if isinstance(l, ast.Constant) and isinstance(l.value, bytes) and l.value.startswith(b"#") and len(l.value) > 1:
-                key = l.value[1:].strip()
+                key = l.value[1:].strip() if l.value.endswith(b" ") or l.value == b"#" else l.value[1:] + b"xx"
                 fields = {C.self_attr(x) for x in ast.walk(n) if C.self_attr(x)}
                 # loop-carried: for e, b in enumerate(self.bpms, 1) / for k, v in self.samples.items()
                 names = {x.id for x in ast.walk(n) if isinstance(x, ast.Name)}
